@@ -99,6 +99,10 @@ type Call struct {
 	FileUnchanged bool `json:"fileunchanged,omitempty"`
 }
 
+// sharedExpose: PkgExpose snippet values that a generator builds once and renders into every file of a run (a package-level
+// variable of the generator's package); reset at the start of every run
+var sharedExpose = map[string]snippet.Snippet{}
+
 var (
 	current   = map[string]*Script{}
 	calls     []Call
@@ -275,6 +279,19 @@ func render(c gengo.Context, pieces []Piece, gen, typ string, st *state, into *s
 			sn = snippet.Sprintf("\n%T\nvar _"+gen+"_doc_"+typ+" = %v\n", snippet.Comment(fmt.Sprintf("%s:%s doc=%q", typ, tb.String(), doc)), doc)
 		case "block":
 			sn = snippet.Block(text)
+		case "sharedexpose":
+			// like "t", but the references are PkgExpose values shared by every file of the run
+			args := snippet.Args{}
+			for i, r := range p.Refs {
+				sn, ok := sharedExpose[r]
+				if !ok {
+					dot := strings.LastIndex(r, ".")
+					sn = snippet.PkgExpose(r[:dot], r[dot+1:])
+					sharedExpose[r] = sn
+				}
+				args[fmt.Sprintf("R%d", i)] = sn
+			}
+			sn = snippet.T(text, args)
 		case "multi":
 			parts := make([]snippet.Snippet, 0, len(p.Parts))
 			for _, pt := range p.Parts {
@@ -554,6 +571,7 @@ func Run(rs RunSpec) (res RunResult) {
 	}()
 
 	current = map[string]*Script{}
+	sharedExpose = map[string]snippet.Snippet{}
 	calls = nil
 	instances = 0
 	deferIDs = 0
